@@ -74,7 +74,10 @@ class CompoundGammaDirichletPrior(CallableModel):
         )
 
     def _sample_shape(self) -> torch.Size:
-        return self.tree_model.sample_shape
+        shapes = [self.tree_model.sample_shape] + [
+            p.tensor.shape[:-1] for p in (self.alpha, self.c, self.shape, self.rate)
+        ]
+        return max(shapes, key=len)
 
     @classmethod
     def from_json(
